@@ -23,6 +23,7 @@ import (
 	"time"
 
 	"github.com/smart-core-os/sc-api/go/types"
+	"google.golang.org/protobuf/proto"
 	"google.golang.org/protobuf/types/known/wrapperspb"
 
 	"github.com/smart-core-os/sc-golang/internal/verifhook"
@@ -61,6 +62,7 @@ func listenScenarios(boundMs int, thorough bool) []Scenario {
 		// an updates-only subscription takes no snapshot and no lock: the writes go through inside its window, it is shown
 		// nothing and, registered after the delete, goes on until it is cancelled
 		add(SingleCase{Adapter: name, BP: i%2 == 0, UO: true, Pre: i % 2})
+		add(SingleCase{Adapter: name, BP: i%2 == 1, Pre: (i + 1) % 3, Inc: true})
 		if thorough || name == "pullid" || name == "pull" {
 			for pre := 0; pre <= 2; pre++ {
 				add(SingleCase{Adapter: name, BP: pre%2 == 0, Pre: pre})
@@ -118,6 +120,10 @@ func runListen(sc Scenario, drv *lib.Driver) (out Outcome) {
 	ctx, cancel := context.WithCancel(context.Background())
 	defer cancel()
 	opts := []resource.ReadOption{resource.WithBackpressure(c.BP), resource.WithUpdatesOnly(c.UO)}
+	if c.Inc {
+		// a filter that includes every item: the subscription goes through CollectionChange.include and behaves as without
+		opts = append(opts, resource.WithInclude(func(string, proto.Message) bool { return true }))
+	}
 	closed := make(chan struct{})
 	var nRecv atomic.Int64
 	opened := make(chan struct{})
@@ -231,7 +237,7 @@ func runListen(sc Scenario, drv *lib.Driver) (out Outcome) {
 		}
 		observed := fmt.Sprintf("through=%v,closed=%v,n=%d", through, isClosed, nRecv.Load())
 		ans, err := drv.Ask(fmt.Sprintf("window 1 %d %d %d %s", b2i(c.UO), b2i(c.BP), c.Pre, observed))
-		t := TieRec{Tie: tieLate, Key: fmt.Sprintf("%s/pre=%d/bp=%v/uo=%v", key, c.Pre, c.BP, c.UO), Nontrivial: true, Code: observed}
+		t := TieRec{Tie: tieLate, Key: fmt.Sprintf("%s/pre=%d/bp=%v/uo=%v%s", key, c.Pre, c.BP, c.UO, map[bool]string{true: "/include"}[c.Inc]), Nontrivial: true, Code: observed}
 		switch {
 		case err != nil:
 			t.Err = "driver: " + err.Error()
